@@ -263,16 +263,44 @@ class Gen:
 
 OPTS = {"bounds": False}
 
+def expand_dyn(x, dyn):
+    """what a reference to a dynamic block denotes for the model: the class's block of that name.
+    A statement `it.d()` stands for the block's statements; a term `it.d()` for their conjunction."""
+    if isinstance(x, list):
+        out = []
+        seen = set()
+        for s in x:
+            if isinstance(s, dict) and s.get("k") == "dyncall":
+                if s["name"] in seen:
+                    continue        # the same block statements are already in their rand sets (identity)
+                seen.add(s["name"])
+                out.extend(expand_dyn(dyn[s["name"]], dyn))
+            else:
+                out.append(expand_dyn(s, dyn))
+        return out
+    if isinstance(x, dict):
+        if x.get("k") == "dyn":
+            return {"k": "dynx", "es": [expand_dyn(s["e"], dyn) for s in dyn[x["name"]]]}
+        return {k: expand_dyn(v, dyn) for k, v in x.items()}
+    return x
+
+
 def scenario_requests(S, scn):
     """run the scenario on the real library; returns per call the observation and the pvdrv request"""
     from vsc.model.rand_state import RandState
     out = []
     cls, names = S.build_class(scn)
-    with common.quiet():
-        o = cls()
-    S.set_values(o, scn)
+    insts = []
+    for _ in range(scn.get("instances", 1)):
+        with common.quiet():
+            oi = cls()
+        S.set_values(oi, scn)
+        insts.append(oi)
+    dyn = {b["name"]: b["stmts"] for b in scn["blocks"] if b.get("dynamic")}
     fidx = {n: i for i, n in enumerate(names)}
     for call in scn["calls"]:
+        o = insts[call.get("inst", 0) % len(insts)]
+        others = [(x, S.get_values(x, scn)) for x in insts if x is not o]
         before = S.get_values(o, scn)
         o.set_randstate(RandState.mkFromSeed(call["seed"]))
         outcome, exc, ev = S.run_call(o, scn, names, call)
@@ -294,13 +322,15 @@ def scenario_requests(S, scn):
                 for s in b["stmts"]]
         if call.get("inline") is not None:
             tops = tops + call["inline"]
+        tops = expand_dyn(tops, dyn)
+        moved = [k for k, (x, v) in enumerate(others) if S.get_values(x, scn) != v]
         req = {"op": "z.call", "fields": fields, "tops": tops, "rec": recs, "enumLimit": 13,
                "implFinal": after if outcome == "ok" else None,
                "draws": [list(d) for d in draws],
                "implBounds": {k: [list(r) for r in v] for k, v in bounds.items()} if OPTS["bounds"] else None,
                "order": [[b, a] for s in tops if s["k"] == "solve_order" for b in s["before"] for a in s["after"]]}
         req["tops"] = [s for s in tops if s["k"] != "solve_order"]
-        out.append({"call": call, "before": before, "after": after, "outcome": outcome, "exc": exc,
+        out.append({"call": call, "before": before, "after": after, "outcome": outcome, "exc": exc, "other_instances_moved": moved,
                     "obs": obs, "uncon": uncon, "bounds": bounds, "n_btors": len(btors), "req": req, "draws": draws})
     return out
 
@@ -321,6 +351,8 @@ def compare_call(S, scn, ci, c, m):
         return corr, orc, st
     if m.get("err"):
         cf("randset-model-error", m["err"], c["outcome"])
+    if c.get("other_instances_moved"):
+        of("other-instance-changed", {"instances": c["other_instances_moved"]}, "a call changes only the object it is made on")
     # ---- an exception other than SolveFailure from inside the library
     if c["outcome"] == "exception":
         of("internal-exception:" + (c["exc"] or "").split(":")[0], c["exc"], "SolveFailure or normal return")
